@@ -638,16 +638,21 @@ impl Shadow {
                                 }
                                 f.pending = rest;
                             }
-                            // lenient: an fsynced file's creation is durable
-                            let mut rest = Vec::new();
-                            for d in std::mem::take(&mut self.dir_pending) {
-                                if d.create && d.inode == ino && !self.strict_dir {
-                                    self.dir_durable.insert(d.name.clone(), d.inode);
-                                } else {
-                                    rest.push(d);
+                            // lenient model: an fsynced file's creation is durable - and, directory operations being
+                            // ordered (journalled metadata; images only ever keep a PREFIX of them), so is every
+                            // directory operation issued before that creation
+                            if !self.strict_dir {
+                                if let Some(pos) = self.dir_pending.iter().position(|d| d.create && d.inode == ino) {
+                                    let rest = self.dir_pending.split_off(pos + 1);
+                                    for d in std::mem::replace(&mut self.dir_pending, rest) {
+                                        if d.create {
+                                            self.dir_durable.insert(d.name.clone(), d.inode);
+                                        } else if self.dir_durable.get(&d.name) == Some(&d.inode) {
+                                            self.dir_durable.remove(&d.name);
+                                        }
+                                    }
                                 }
                             }
-                            self.dir_pending = rest;
                         }
                     }
                     self.gc();
